@@ -1891,6 +1891,12 @@ class FuncGetOutputString(ValueFunc):
 
     def execute(self, args, environment, pos):
         output = args.getOutput("output")
+        if not isinstance(output.output, StringOutput):
+            raise CklRuntimeError(
+                ValueString("ERROR"),
+                "Expected a string output but got another output",
+                pos,
+            )
         return ValueString(output.output.output)
 
 
